@@ -29,15 +29,15 @@ def gen_history(rng, stats, names=True, max_adds=8):
     ops = []
     asts = []
     n_add = rng.randint(1, max_adds)
-    n_q = rng.randint(4, 12)
-    plan = ['A'] * n_add + ['Q'] * n_q
-    # adds first for the most part, a few lookups in between
-    head = plan[:n_add]
-    tail = plan[n_add:]
-    for _ in range(rng.randint(0, 2)):
-        if tail:
-            head.insert(rng.randint(1, len(head)), tail.pop())
-    used_names = []
+    # lookups after (almost) every registration, so that every intermediate tree is probed
+    head, tail = [], ['Q'] * rng.randint(2, 5)
+    for _ in range(n_add):
+        head.append('A')
+        if rng.random() < .7:
+            head += ['Q'] * rng.randint(1, 3)
+    from ombott.router.radirouter import RadiRouter
+    shadow = RadiRouter()          # only to know which rules are accepted (paths are derived from those)
+    live = []
     for what in head + tail:
         if what == 'A':
             if rng.random() < .08:
@@ -46,6 +46,11 @@ def gen_history(rng, stats, names=True, max_adds=8):
                 rule, ast = G.gen_rule(rng, asts)
             if ast is not None:
                 asts.append(ast)
+                try:
+                    shadow.add(rule, 'X%d' % len(ops), len)
+                    live.append(ast)
+                except Exception:
+                    pass
             name = None
             if names and rng.random() < .12:
                 name = rng.choice(['n1', 'n2', ''])
@@ -53,7 +58,7 @@ def gen_history(rng, stats, names=True, max_adds=8):
             if rule in ('/u/:a', '/n/<x:int>'):
                 asts.append([('lit', rule[1:3]), ('w', 'q', 'int' if 'int' in rule else None, None, None)])
         else:
-            p = G.gen_path(rng, asts)
+            p = G.gen_path(rng, live if (live and rng.random() < .85) else asts)
             k = rng.random()
             if k < .55:
                 ops.append(['R', p, rng.choice(RES_METHODS)])
@@ -73,26 +78,36 @@ class C01(Check):
     design_ref = '6/C01'
     anchors = ['ombott/router/radidict.py', 'ombott/router/radirouter.py', 'ombott/router/filter_factory.py',
                'ombott/router/parser.py', 'ombott/router/sym_stream.py', 'ombott/ombott.py']
-    level_text = ('Lean theorems over the model of RadiDict (_match/_set/_split/_make_route/get), Route.parse_rule '
-                  'and RadiRouter.add/resolve: lookup in every well-formed tree equals the plain rule-by-rule '
-                  'matcher with literal-before-wildcard priority, insertion keeps the tree well formed and adds '
-                  'exactly the rule, kwargs are the rule\'s own names bound to filter results; model tied to the '
-                  'code by differential runs of whole registration/lookup histories.')
-    level_note_extra = 'regex filters are a parameter (real handler results shipped per lookup); rex selectors by correspondence only'
-    rule = ('histories of 1-8 RadiRouter.add calls (rule ASTs in every syntax flavour sharing/splitting prefixes, all '
-            'filter kinds, malformed rules, several methods and names per pattern) interleaved with lookups through '
-            'RadiRouter.resolve, RadiDict.get(allow_partial) and Ombott.__call__ on paths derived from the rules and '
-            'mutated (empty segments, CR, non-ASCII, extra text); non-trivial = some lookup hits a wildcard rule')
-    assumptions = ['re matching of the filter masks is taken from the running interpreter (handler results shipped to the model)',
-                   'rule text contains no CR (the router\'s own wildcard marker) and no repeated wildcard name',
-                   'rex selector semantics (two-pass lookup) is covered by correspondence, not by the rule-by-rule theorem',
-                   'str.upper on method names is a parameter of the model (ASCII in the correspondence run)']
+    level_text = ('Lean theorems over the model of Route.parse_rule, RadiDict (_match/_set/_split/_make_route/get) and '
+                  'RadiRouter.add/resolve: lookup in every well-formed tree equals the plain rule-by-rule matcher with '
+                  'literal-before-wildcard priority (get_eq_spec); insertion keeps the tree well formed and adds exactly '
+                  'the rule (insert_wf, insert_denote); after every history of add/remove_method the tree holds exactly '
+                  'the routes table and resolve = plain matcher over it (resolve_eq_rule_by_rule); kwargs are the names of '
+                  'the rule text the handler was registered with, bound to its own filters\' values '
+                  '(params_are_rule_names, filter_guard); for every filter environment, rex selectors included, a '
+                  'handler is only called when its own rule matches and only with filter answers (get_sound, '
+                  'handler_called_only_on_match); every syntax flavour parses to the same abstract rule (parse_print). Model tied to the code by differential runs of whole registration/lookup histories.')
+    level_note_extra = ('regex filters are a parameter (real handler results shipped per lookup); filters answering '
+                        'with a rex selector are outside the completeness/priority theorems (NoSel; soundness holds for '
+                        'every environment) and are covered there by correspondence only')
+    rule = ('histories of 1-8 RadiRouter.add calls (rule ASTs printed in every syntax flavour, sharing/splitting prefixes, '
+            'all filter kinds incl. rex selectors, malformed rules, several methods/names per pattern, names, overwrite) '
+            'with lookups after almost every registration through RadiRouter.resolve, RadiDict.get(allow_partial) and '
+            'Ombott.__call__ on paths derived from the accepted rules (per-regex samples) and mutated (empty segments, '
+            'CR, LF, non-ASCII, extra text, extra slashes); non-trivial = some lookup hits a wildcard rule. Thorough '
+            'search adds the exhaustive scope: every rule set of <= 3 rules of a 14-rule universe x every path of '
+            'length <= 5 over {a / 1 - CR}.')
+    assumptions = ['re matching of the filter masks is taken from the running interpreter (handler results and compile errors shipped to the model)',
+                   'rule text contains no CR (the router\'s own wildcard marker; rule_without_marker_ok) and no repeated wildcard name: outside, Python pairs filters and markers wrongly and the model does not follow',
+                   'for filters answering with a rex selector (two-pass lookup) only soundness is proved (get_sound, handler_called_only_on_match); which rule wins / 404-completeness there is covered by correspondence (hypothesis NoSel of the other theorems)',
+                   'str.upper on method names is a parameter of the model (ASCII in the correspondence run)',
+                   '\\w of re is taken from the interpreter (generated code point ranges)']
 
     def __init__(self):
         self.stats = {}
 
     def budget(self, tier, escalated):
-        n = 700 if tier == 'quick' else 20000
+        n = 900 if tier == "quick" else 40000
         return n * (3 if escalated and tier == 'quick' else 1)
 
     def nontrivial(self, sample):
@@ -151,6 +166,8 @@ class C01(Check):
             elif op[0] == 'D':
                 return bad
             elif op[0] in ('R', 'W', 'G'):
+                run.ops.append('N')          # keeps Runner positions equal to op positions
+                run.answers.append('skip')
                 if op[0] == 'R':
                     path, methods = op[1], op[2] or ['GET', 'ANY']
                 elif op[0] == 'G':
@@ -187,12 +204,66 @@ class C01(Check):
                     bad.append(('kwargs-values', f'handler kwargs {kw!r}, filters give {exp!r}: {ctx}'))
                 if op[0] == 'W':
                     status, allow, calls = run.wsgi_raw(op[1], op[2])
-                    if status != 200 or len(calls) != 1 or calls[0][2] != exp:
-                        bad.append(('wsgi-kwargs', f'through WSGI: status {status} calls {calls!r}, expected kwargs {exp!r}: {ctx}'))
+                    if status == 404:
+                        bad.append(('false-404', f'through WSGI: rule {pat!r} matches, answered 404: {ctx}'))
+                    elif status == 200 and (len(calls) != 1 or calls[0][2] != exp):
+                        # (which handler / 405 is C02's business)
+                        bad.append(('wsgi-kwargs', f'through WSGI: calls {calls!r}, expected kwargs {exp!r}: {ctx}'))
         return bad
+
+    UNIVERSE = ['/a', '/a/b', '/a/:x', '/a/<x:int>', '/:x', '/:x/a', '/a<x:int>', '/<p:path>', '/a/<x:re:a+>',
+                '/:x/:y', '/a/:x/b', '/<x:int>/a', '/a/1', '/<x>-<y>']
+    SCOPE_ALPHA = ['a', '/', '1', '-', '\r']
+
+    def exhaustive(self):
+        """thorough tier: every rule set of <= 3 rules of UNIVERSE x every path of length <= 5 over
+        SCOPE_ALPHA, real router against the plain rule-by-rule matcher (validation of the code
+        against the specification, not of the model)"""
+        import itertools
+        from ombott.router.radirouter import RadiRouter, Route
+        paths = ['']
+        for L in range(1, 6):
+            paths += [''.join(t) for t in itertools.product(self.SCOPE_ALPHA, repeat=L)]
+        findings, evals = [], 0
+        for k in (1, 2, 3):
+            for combo in itertools.combinations(self.UNIVERSE, k):
+                R = RadiRouter()
+                rules, names = {}, {}
+                for i, rule in enumerate(combo):
+                    try:
+                        R.add(rule, 'GET', (lambda i: (lambda **kw: i))(i))
+                    except Exception:
+                        continue
+                    pat, params, filters, _, _ = Route.parse_rule(rule)
+                    rules[pat], names[pat] = filters, params
+                for path in paths:
+                    evals += 1
+                    spec = G.spec_resolve(rules, path.strip('/'))
+                    ep, err = R.resolve(path, ['GET'])
+                    bad = None
+                    if spec[0] == 'none':
+                        if ep:
+                            bad = ('false-match', 'no rule matches, router answered a handler')
+                    elif spec[0] == 'one':
+                        exp = {n: v for n, v in zip(names[spec[1]], spec[2]) if not n.startswith('anon-')}
+                        if not ep:
+                            bad = ('false-404', f'rule {spec[1]!r} matches, router answered 404')
+                        elif ep[0].route.pattern != spec[1]:
+                            bad = ('wrong-route', f'selected {ep[0].route.pattern!r}, rule-by-rule selects {spec[1]!r}')
+                        elif ep[1] != exp:
+                            bad = ('kwargs-values', f'kwargs {ep[1]!r}, filters give {exp!r}')
+                    if bad:
+                        ops = [['A', r, ['GET'], None, False] for r in combo] + [['R', path, ['GET']]]
+                        findings.append(Finding(f'C01:{bad[0]}', f'{bad[1]}: rules={list(combo)} path={path!r}', dict(ops=ops)))
+                        if len(findings) > 50:
+                            return evals, findings
+        self.stats['exhaustive-scope-lookups'] = evals
+        return evals, findings
 
     def search(self, rng, n, seeds):
         findings, evals = [], 0
+        if n >= 20000:
+            evals, findings = self.exhaustive()
         cases = [s['ops'] for s in seeds if 'ops' in s]
         # the two historical defects and their neighbourhood, always
         cases.append([['A', '/n/<x:int>', ['GET'], None, False], ['R', '/n/\r', ['GET', 'ANY']], ['W', 'GET', '/n/\r']])
